@@ -724,3 +724,29 @@ def pure_logging(ctx, R, modules):
         else:
             out.append(ctx.ok(R, None, None, f"{mq}: {n} logging / warning calls, none evaluates a lazy property or an effectful call", construct=k, nontrivial=n > 0))
     return out
+
+
+def binary_data_io(ctx, R, quals, why):
+    """signac's own data files (state points, documents, the cache) are JSON in UTF-8: they are read and written as bytes (`"rb"` / `"wb"` plus explicit
+    encode() / decode()) or with an explicit encoding=, never in text mode with the locale's default encoding."""
+    out = []
+    for q in quals:
+        fi = ctx.prog.funcs.get(q)
+        k = f"{q}|binary-io"
+        if fi is None:
+            out.append(ctx.inc(R, None, None, f"function {q} not found", construct=k))
+            continue
+        opens = [c for c in body_nodes(fi) if isinstance(c, ast.Call) and common.ext_name(ctx, fi, c) in ("builtins.open", "io.open", "gzip.open", "bz2.open", "lzma.open")]
+        bad = None
+        for c in opens:
+            m = kwarg(c, "mode") or (c.args[1] if len(c.args) > 1 else None)
+            mode = ctx.fold(m, fi) if m is not None else ("r" if common.ext_name(ctx, fi, c) in ("builtins.open", "io.open") else "rb")
+            enc = kwarg(c, "encoding")
+            if isinstance(mode, str) and "b" not in mode and enc is None:
+                bad = bad or (c, mode)
+        if bad:
+            c, mode = bad
+            out.append(ctx.viol(R, fi, c, f"`{canon(c)[:60]}` opens a signac data file in text mode {mode!r} without encoding=: the bytes are interpreted in the locale's encoding, {why}", construct=k))
+        else:
+            out.append(ctx.ok(R, fi, fi.node, f"{len(opens)} file open(s): binary or with explicit encoding", construct=k, nontrivial=bool(opens)))
+    return out
